@@ -569,7 +569,11 @@ class DThread(object):
             except Abort:
                 pass
             except BaseException as e:  # a logical thread died with an exception
-                lt.exc = e
+                if not s.aborting:
+                    # (while the run is being torn down every thread is ended by Abort; a `finally:` of the library that trips over
+                    # the half-executed try block - `monotonic() - now` with `now` unbound - replaces it by another exception: that is
+                    # the tear-down, not a death of the thread)
+                    lt.exc = e
                 if not s.aborting:
                     import traceback
                     s.tracebacks.append((lt.name, traceback.format_exc()))
